@@ -1,0 +1,168 @@
+//go:build verif
+
+package wallet
+
+// Contracts for property C16 (recovery look-ahead) — comment only.
+//
+// cnt(S, lo, hi) is the number of elements of the set S in [lo, hi). It is
+// DEFINED by recursion on hi; the four facts used by the proofs below are
+// lemmas proved by induction on every run (the induction step is the machine
+// checked obligation; see CONTRACTS.md `induct`).
+//@ spec opaque func cnt(S [Int]Bool, lo Int, hi Int) Int = hi <= lo ? 0 : cnt(S, lo, hi - 1) + (select(S, hi - 1) ? 1 : 0)
+//@ lemma cnt_bounds@C16: forall S [Int]Bool, lo Int, hi Int :: {cnt(S, lo, hi)} 0 <= cnt(S, lo, hi) && (hi >= lo ==> cnt(S, lo, hi) <= hi - lo) && (hi <= lo ==> cnt(S, lo, hi) == 0)
+//@   induct hi > lo
+//@ lemma cnt_none@C16: forall S [Int]Bool, lo Int, hi Int :: {cnt(S, lo, hi)} (forall k Int :: {select(S, k)} lo <= k && k < hi ==> !select(S, k)) ==> cnt(S, lo, hi) == 0
+//@   induct hi > lo
+//@ lemma cnt_add@C16: forall S [Int]Bool, k Int, lo Int, hi Int :: {cnt(store(S, k, true), lo, hi)} !select(S, k) ==> cnt(store(S, k, true), lo, hi) == cnt(S, lo, hi) + ((lo <= k && k < hi) ? 1 : 0)
+//@   induct hi > lo
+//@ lemma cnt_ext@C16: forall S [Int]Bool, T [Int]Bool, lo Int, hi Int :: {cnt(S, lo, hi), cnt(T, lo, hi)} (forall k Int :: {select(S, k)} lo <= k && k < hi ==> select(S, k) == select(T, k)) ==> cnt(S, lo, hi) == cnt(T, lo, hi)
+//@   induct hi > lo
+
+//@ macro INVALID(brs) = dom(brs.invalidChildren)
+
+// NumInvalidInHorizon counts exactly the invalid children in [nextUnfound, horizon).
+//@ func (*BranchRecoveryState).NumInvalidInHorizon(brs) (r)
+//@   property C16
+//@   requires nonnil: brs != nil
+//@   ensures count: r == cnt(INVALID(brs), brs.nextUnfound, brs.horizon)
+//@   invariant 1 seen_are_keys: forall k Int :: {select(rangeseen(), k)} select(rangeseen(), k) ==> select(rangedom(), k)
+//@   invariant 1 count: nInvalid == cnt(rangeseen(), brs.nextUnfound, brs.horizon)
+
+// ExtendHorizon: the new horizon is the larger of the old one and
+// nextUnfound + window + (invalid children inside the old look-ahead), in
+// uint32 arithmetic exactly as the code computes it; delta is the growth.
+//@ macro WANT(brs) = (brs.nextUnfound + brs.recoveryWindow + cnt(INVALID(brs), brs.nextUnfound, brs.horizon)) % 4294967296
+//@ func (*BranchRecoveryState).ExtendHorizon(brs) (cur, delta)
+//@   property C16
+//@   requires nonnil: brs != nil
+//@   ensures cur: cur == old(brs.horizon)
+//@   ensures horizon: brs.horizon == (old(brs.horizon) >= old(WANT(brs)) ? old(brs.horizon) : old(WANT(brs)))
+//@   ensures delta: delta == brs.horizon - old(brs.horizon)
+//@   ensures frame: brs.nextUnfound == old(brs.nextUnfound) && brs.recoveryWindow == old(brs.recoveryWindow) && brs.invalidChildren == old(brs.invalidChildren) && INVALID(brs) == old(INVALID(brs)) && brs.addresses == old(brs.addresses)
+
+// MarkInvalidChild records the index and moves the horizon by one.
+//@ func (*BranchRecoveryState).MarkInvalidChild(brs, index)
+//@   property C16
+//@   requires nonnil: brs != nil && brs.invalidChildren != nil
+//@   ensures marked: INVALID(brs) == store(old(INVALID(brs)), index, true)
+//@   ensures only_this_map: onlymap(brs.invalidChildren)
+//@   ensures horizon: brs.horizon == (old(brs.horizon) + 1) % 4294967296
+//@   ensures frame: brs.nextUnfound == old(brs.nextUnfound) && brs.recoveryWindow == old(brs.recoveryWindow) && brs.invalidChildren == old(brs.invalidChildren) && brs.addresses == old(brs.addresses)
+
+// ReportFound moves nextUnfound past a found index and prunes exactly the
+// invalid children below it; a lower index changes nothing.
+//@ func (*BranchRecoveryState).ReportFound(brs, index)
+//@   property C16
+//@   requires nonnil: brs != nil
+//@   ensures next: brs.nextUnfound == (index >= old(brs.nextUnfound) ? (index + 1) % 4294967296 : old(brs.nextUnfound))
+//@   ensures pruned: forall k Int :: {select(INVALID(brs), k)} select(INVALID(brs), k) == (select(old(INVALID(brs)), k) && !(index >= old(brs.nextUnfound) && k < index))
+//@   ensures frame: brs.horizon == old(brs.horizon) && brs.recoveryWindow == old(brs.recoveryWindow) && brs.invalidChildren == old(brs.invalidChildren) && brs.addresses == old(brs.addresses)
+//@   ensures wf_kept: forall is [Int]Bool :: old(BRS_WF(brs, is)) && index < old(brs.horizon) ==> BRS_WF(brs, is)
+//@   invariant 1 pruning: forall k Int :: {select(rangedom(), k)} select(rangedom(), k) == (select(old(INVALID(brs)), k) && !(select(rangeseen(), k) && k < index))
+//@   invariant 1 frame: brs.nextUnfound == (index + 1) % 4294967296 && brs.horizon == old(brs.horizon) && brs.recoveryWindow == old(brs.recoveryWindow) && brs.invalidChildren == old(brs.invalidChildren) && brs.addresses == old(brs.addresses) && index >= old(brs.nextUnfound)
+
+// ---- the birthday block: never later than the first block that could pay ----
+// Assumed about the chain backend during one search: heights are non-negative,
+// GetBlockHash(h) is the hash at height h of one fixed chain, GetBlockHeader
+// returns that block's header (hdrTime = its timestamp), no wallet memory is
+// touched. Nothing is assumed about the timestamps themselves.
+//@ spec func hdrTime(h Bytes) Int
+//@ iface chainConn.GetBestBlock(c) (hash, height, err)
+//@   trusted
+//@   writes nothing
+//@   ensures height: err == nil ==> height >= 0
+//@ iface chainConn.GetBlockHash(c, height) (hash, err)
+//@   trusted
+//@   writes nothing
+//@   ensures hash: err == nil ==> hash != nil && bytes(deref(hash)) == chainHashAt(height)
+//@ iface chainConn.GetBlockHeader(c, hash) (header, err)
+//@   trusted
+//@   writes nothing
+//@   ensures header: err == nil ==> header != nil && tns(header.Timestamp) == hdrTime(bytes(deref(hash)))
+//@ macro TWO_HOURS() = 7200000000000
+//@ macro TS_AT(h) = hdrTime(chainHashAt(h))
+//@ func locateBirthdayBlock(chainClient, birthday) (r, err)
+//@   property C16
+//@   ensures found: err == nil ==> r != nil
+//@   ensures not_late: err == nil ==> r.Height == 0 || TS_AT(r.Height) - tns(birthday) <= TWO_HOURS()
+//@   ensures stamp_is_chain_block: err == nil ==> bytes(r.Hash) == chainHashAt(r.Height) && tns(r.Timestamp) == TS_AT(r.Height)
+//@   ensures failure: err != nil ==> r == nil
+//@   invariant 1 range: 0 <= left && left <= right && right <= bestHeight
+//@   invariant 1 left_is_early: left == 0 || TS_AT(left) - tns(birthday) < 0 - TWO_HOURS()
+
+// ---- every block of a recovery batch is put before the block filter ----
+// recoverScopedAddresses returns success only when every block of the batch has
+// been answered for by the backend's FilterBlocks (fbCovered, see
+// btcwallet_chain.spec): after a match at index i the remaining blocks
+// batch[i+1:] are filtered again with the expanded horizons, none is skipped.
+//@ func newFilterBlocksRequest(batch, scopedMgrs, recoveryState) (r)
+//@   property C16
+//@   requires nonnil: recoveryState != nil
+//@   fresh r
+//@   ensures blocks: r != nil && r.Blocks == batch
+//@ func (*Wallet).recoverScopedAddresses(w, chainClient, tx, ns, batch, recoveryState, scopedMgrs) (err)
+//@   property C16
+//@   requires nonnil: w != nil && recoveryState != nil && chainClient != nil
+//@   requires batch_fits_uint32: len(batch) < 4294967296
+//@   ensures whole_batch_filtered: err == nil ==> fbCovered == old(fbCovered) + old(len(batch))
+//@   invariant 1 accounted: fbCovered + len(batch) == old(fbCovered) + old(len(batch)) && len(batch) > 0 && len(batch) < 4294967296
+
+// ---- the look-ahead window ----
+// After expandScopeHorizons succeeds, each branch watches at least
+// recoveryWindow VALID child indices at or above nextUnfound: every index in
+// [nextUnfound, horizon) is either a recorded invalid child or has its address
+// registered (BRS_WF), and the number of non-invalid ones (VALID_AHEAD) is
+// >= recoveryWindow. This is the fact the completeness of recovery rests on: a
+// payment to any address fewer than recoveryWindow valid indices beyond the
+// last found one is seen by the next FilterBlocks request.
+// Assumed (stated as preconditions): the branch state is well formed (BRS_WF,
+// maintained by the BranchRecoveryState operations), indices are far from 2^32
+// (ROOM) and a branch has at most 1000 invalid children (FEW).
+//@ lemma cnt_subset@C16: forall S [Int]Bool, T [Int]Bool, lo Int, hi Int :: {cnt(S, lo, hi), cnt(T, lo, hi)} (forall k Int :: {select(S, k)} lo <= k && k < hi && select(S, k) ==> select(T, k)) ==> cnt(S, lo, hi) <= cnt(T, lo, hi)
+//@   induct hi > lo
+//@ lemma cnt_split@C16: forall S [Int]Bool, lo Int, mid Int, hi Int :: {cnt(S, lo, mid), cnt(S, lo, hi)} lo <= mid && mid <= hi ==> cnt(S, lo, hi) == cnt(S, lo, mid) + cnt(S, mid, hi)
+//@   induct hi > mid
+//@ macro BIG() = 4294967296
+//@ macro BRS_WF(b, is) = (b != nil && b.invalidChildren != nil && b.addresses != nil
+//@     && (forall k Int :: {select(INVALID(b), k)} select(INVALID(b), k) ==> 0 <= k && k < b.horizon && select(is, k))
+//@     && (forall k Int :: {has(b.addresses, k)} b.nextUnfound <= k && k < b.horizon && !select(INVALID(b), k) ==> has(b.addresses, k)))
+//@ macro VALID_AHEAD(b) = (b.horizon - b.nextUnfound - cnt(INVALID(b), b.nextUnfound, BIG()))
+//@ macro ROOM(b) = (b.horizon <= 2147483648 && b.nextUnfound <= b.horizon && b.recoveryWindow <= 1073741824 && cnt(INVALID(b), b.nextUnfound, b.horizon) <= 1000)
+//@ macro FEW(is) = (forall a Int, c Int :: {cnt(is, a, c)} cnt(is, a, c) <= 1000)
+//@ macro XB() = scopeState.ExternalBranch
+//@ macro NB() = scopeState.InternalBranch
+//@ macro XIS() = invalidSet(scopedMgr, 0)
+//@ macro NIS() = invalidSet(scopedMgr, 1)
+//@ func (*BranchRecoveryState).AddAddr(brs, index, addr)
+//@   property C16
+//@   requires nonnil: brs != nil && brs.addresses != nil
+//@   ensures added: dom(brs.addresses) == store(old(dom(brs.addresses)), index, true)
+//@   ensures only_this_map: onlymap(brs.addresses)
+//@   ensures frame: brs.horizon == old(brs.horizon) && brs.nextUnfound == old(brs.nextUnfound) && brs.recoveryWindow == old(brs.recoveryWindow) && brs.invalidChildren == old(brs.invalidChildren) && brs.addresses == old(brs.addresses)
+//@ func expandScopeHorizons(ns, scopedMgr, scopeState) (err)
+//@   property C16
+//@   requires state: scopeState != nil && XB() != NB() && XB() != nil && NB() != nil && XB().invalidChildren != NB().invalidChildren && XB().addresses != NB().addresses
+//@   requires external_wf: BRS_WF(XB(), XIS()) && ROOM(XB()) && FEW(XIS())
+//@   requires internal_wf: BRS_WF(NB(), NIS()) && ROOM(NB()) && FEW(NIS())
+//@   ensures external_window: err == nil ==> BRS_WF(XB(), XIS()) && VALID_AHEAD(XB()) >= XB().recoveryWindow
+//@   ensures internal_window: err == nil ==> BRS_WF(NB(), NIS()) && VALID_AHEAD(NB()) >= NB().recoveryWindow
+//@   invariant 1 bounds: exHorizon <= childIndex && childIndex <= XB().horizon && count <= exWindow
+//@   invariant 1 index: childIndex == exHorizon + count + cnt(INVALID(XB()), exHorizon, BIG())
+//@   invariant 1 horizon: XB().horizon == exHorizon + exWindow + cnt(INVALID(XB()), exHorizon, BIG())
+//@   invariant 1 few: cnt(INVALID(XB()), exHorizon, BIG()) <= cnt(XIS(), exHorizon, BIG())
+//@   invariant 1 invalid_below: forall k Int :: {select(INVALID(XB()), k)} select(INVALID(XB()), k) ==> 0 <= k && k < childIndex && select(XIS(), k)
+//@   invariant 1 old_invalid_kept: cnt(INVALID(XB()), XB().nextUnfound, exHorizon) == cnt(old(INVALID(XB())), XB().nextUnfound, exHorizon) && (forall k Int :: {select(INVALID(XB()), k)} k < exHorizon ==> select(INVALID(XB()), k) == select(old(INVALID(XB())), k))
+//@   invariant 1 watched: forall k Int :: {has(XB().addresses, k)} XB().nextUnfound <= k && k < childIndex && !select(INVALID(XB()), k) ==> has(XB().addresses, k)
+//@   invariant 1 frame: scopeState.ExternalBranch == old(scopeState.ExternalBranch) && scopeState.InternalBranch == old(scopeState.InternalBranch) && XB().nextUnfound == old(XB().nextUnfound) && XB().recoveryWindow == old(XB().recoveryWindow) && XB().invalidChildren == old(XB().invalidChildren) && XB().addresses == old(XB().addresses) && XB().invalidChildren != nil && XB().addresses != nil
+//@   invariant 1 want: exHorizon == old(XB().horizon) && exHorizon + exWindow >= old(XB().nextUnfound) + old(XB().recoveryWindow) + cnt(old(INVALID(XB())), old(XB().nextUnfound), exHorizon) && (exWindow > 0 ==> exHorizon + exWindow == old(XB().nextUnfound) + old(XB().recoveryWindow) + cnt(old(INVALID(XB())), old(XB().nextUnfound), exHorizon)) && old(ROOM(XB()))
+//@   invariant 1 internal_untouched: NB().horizon == old(NB().horizon) && NB().nextUnfound == old(NB().nextUnfound) && NB().recoveryWindow == old(NB().recoveryWindow) && NB().invalidChildren == old(NB().invalidChildren) && NB().addresses == old(NB().addresses) && INVALID(NB()) == old(INVALID(NB())) && BRS_WF(NB(), NIS()) && ROOM(NB()) && XB() != NB() && XB().invalidChildren != NB().invalidChildren && XB().addresses != NB().addresses && FEW(XIS()) && FEW(NIS())
+//@   invariant 2 bounds: inHorizon <= childIndex && childIndex <= NB().horizon && count <= inWindow
+//@   invariant 2 index: childIndex == inHorizon + count + cnt(INVALID(NB()), inHorizon, BIG())
+//@   invariant 2 horizon: NB().horizon == inHorizon + inWindow + cnt(INVALID(NB()), inHorizon, BIG())
+//@   invariant 2 few: cnt(INVALID(NB()), inHorizon, BIG()) <= cnt(NIS(), inHorizon, BIG())
+//@   invariant 2 invalid_below: forall k Int :: {select(INVALID(NB()), k)} select(INVALID(NB()), k) ==> 0 <= k && k < childIndex && select(NIS(), k)
+//@   invariant 2 old_invalid_kept: cnt(INVALID(NB()), NB().nextUnfound, inHorizon) == cnt(old(INVALID(NB())), NB().nextUnfound, inHorizon) && (forall k Int :: {select(INVALID(NB()), k)} k < inHorizon ==> select(INVALID(NB()), k) == select(old(INVALID(NB())), k))
+//@   invariant 2 watched: forall k Int :: {has(NB().addresses, k)} NB().nextUnfound <= k && k < childIndex && !select(INVALID(NB()), k) ==> has(NB().addresses, k)
+//@   invariant 2 frame: scopeState.ExternalBranch == old(scopeState.ExternalBranch) && scopeState.InternalBranch == old(scopeState.InternalBranch) && NB().nextUnfound == old(NB().nextUnfound) && NB().recoveryWindow == old(NB().recoveryWindow) && NB().invalidChildren == old(NB().invalidChildren) && NB().addresses == old(NB().addresses) && NB().invalidChildren != nil && NB().addresses != nil
+//@   invariant 2 want: inHorizon == old(NB().horizon) && inHorizon + inWindow >= old(NB().nextUnfound) + old(NB().recoveryWindow) + cnt(old(INVALID(NB())), old(NB().nextUnfound), inHorizon) && (inWindow > 0 ==> inHorizon + inWindow == old(NB().nextUnfound) + old(NB().recoveryWindow) + cnt(old(INVALID(NB())), old(NB().nextUnfound), inHorizon)) && old(ROOM(NB()))
+//@   invariant 2 external_done: BRS_WF(XB(), XIS()) && VALID_AHEAD(XB()) >= XB().recoveryWindow && NB() != XB() && NB().invalidChildren != XB().invalidChildren && NB().addresses != XB().addresses && FEW(NIS()) && FEW(XIS())
